@@ -212,7 +212,10 @@ func valueEq(a, b Value) bool {
 		return ok && x == y
 	case IfaceV:
 		y, ok := b.(IfaceV)
-		return ok && x == y
+		if !ok || x.Tag != y.Tag || x.Box != y.Box || (x.Ptr == nil) != (y.Ptr == nil) {
+			return false
+		}
+		return x.Ptr == nil || valueEq(*x.Ptr, *y.Ptr)
 	case StructV:
 		y, ok := b.(StructV)
 		if !ok || len(x.F) != len(y.F) {
@@ -871,6 +874,33 @@ func (x *exec) doAlloc(s *State, a *ssa.Alloc) Value {
 	return PtrV{Kind: PCell, Cell: cell, T: t}
 }
 
+// noteAlloc raises the obligations of the contract's "alloc" clauses: the
+// bytes allocated since entry stay within the bound, checked at every
+// allocation site.
+func (x *exec) noteAlloc(s *State, pos token.Pos, what string) {
+	e := x.e
+	if e.dry > 0 {
+		return
+	}
+	t := x.topExec()
+	if t.contract == nil {
+		return
+	}
+	for _, cl := range t.contract.Of("alloc") {
+		b, ok := t.evalClause(cl, t.entry, token.NoPos).(*Term)
+		if !ok || b.Sort != Int {
+			t.bindFail(cl, fmt.Errorf("alloc bound is not an integer"))
+			continue
+		}
+		lbl := cl.Label
+		if lbl == "" {
+			lbl = "bound"
+		}
+		g := e.C.Le(e.C.Sub(s.alloc, t.entry.alloc), b)
+		x.oblige("alloc", lbl+"@"+what, pos, s, g, "bytes allocated <= "+cl.Text)
+	}
+}
+
 func (x *exec) zeroArray(s *State, arr *Term, at *types.Array) {
 	e := x.e
 	c := e.C
@@ -984,7 +1014,8 @@ func (x *exec) makeIface(s *State, v Value, t types.Type) Value {
 	if p, ok := v.(PtrV); ok {
 		r, err := e.refOfPtr(p)
 		if err != nil {
-			return PoisonV{"boxing " + err.Error()}
+			pp := p
+			return IfaceV{Tag: tag, Box: e.C.Fresh("localbox", Int), Ptr: &pp}
 		}
 		return IfaceV{Tag: tag, Box: r}
 	}
@@ -1008,6 +1039,9 @@ func (x *exec) unbox(s *State, iv IfaceV, t types.Type) Value {
 	e := x.e
 	switch repOf(t) {
 	case RPtr:
+		if iv.Ptr != nil {
+			return *iv.Ptr
+		}
 		return e.ptrFromRef(iv.Box, t)
 	case RMap, RChan:
 		return iv.Box
@@ -1226,6 +1260,7 @@ func (x *exec) makeSlice(s *State, t types.Type, ln, cp *Term, pos token.Pos) Va
 		x.zeroStructElems(s, arr, el)
 	}
 	s.alloc = c.Add(s.alloc, c.Mul(cp, c.IntC(sizeOf(el))))
+	x.noteAlloc(s, pos, "make")
 	return SliceV{Arr: arr, Off: c.IntC(0), Len: ln, Cap: cp}
 }
 
@@ -1236,50 +1271,81 @@ func max64(a, b int64) int64 {
 	return b
 }
 
-// zeroStructElems makes every element of the fresh array arr the zero struct:
-// for each leaf heap H of the struct, H'[elem(arr,k)] = zero.
-func (x *exec) zeroStructElems(s *State, arr *Term, el types.Type) {
-	e := x.e
+// leafPath describes one leaf heap of a (possibly nested) struct type: the
+// object holding the leaf is mk(elementRef); unmk inverts mk.
+type leafPath struct {
+	key  string
+	sort *Sort
+	typ  types.Type
+	zero *Term
+	mk   func(r *Term) *Term
+	unmk func(r *Term) *Term
+	ok   func(r *Term) *Term // r is of the form mk(unmk(r))
+}
+
+func (e *Engine) structLeaves(el types.Type) []leafPath {
 	c := e.C
-	var walk func(t types.Type, mk func(r *Term) *Term)
-	walk = func(t types.Type, mk func(r *Term) *Term) {
+	var out []leafPath
+	var walk func(t types.Type, mk, unmk func(r *Term) *Term, ok func(r *Term) *Term)
+	walk = func(t types.Type, mk, unmk func(r *Term) *Term, ok func(r *Term) *Term) {
 		st := structOf(t)
 		for i := 0; i < st.NumFields(); i++ {
 			ft := st.Field(i).Type()
 			if structOf(ft) != nil {
 				i := i
-				walk(ft, func(r *Term) *Term { return e.subRef(t, i, mk(r)) })
+				t := t
+				name := "parent:" + fieldKey(t, i)
+				e.subRef(t, i, c.IntC(1)) // make sure the axioms exist
+				walk(ft,
+					func(r *Term) *Term { return e.subRef(t, i, mk(r)) },
+					func(r *Term) *Term { return unmk(c.App(name, Int, r)) },
+					func(r *Term) *Term {
+						p := c.App(name, Int, r)
+						return c.And(c.Eq(e.subRef(t, i, p), r), ok(p))
+					})
 				continue
 			}
 			ls := e.leavesOf(ft)
 			if ls == nil {
-				e.unsupported("make of struct with field of type %s", ft)
+				e.unsupported("struct field of type %s in a slice element", ft)
 			}
-			zs, _ := e.toLeaves(ft, e.zero(ft))
+			zs, err := e.toLeaves(ft, e.zero(ft))
+			if err != nil {
+				e.unsupported("zero of %s: %v", ft, err)
+			}
 			for k, l := range ls {
-				key := fieldKey(t, i) + l.comp
-				h := e.heapGet(s, key, Array(Int, l.sort))
-				nh := c.Fresh("Hz:"+key, Array(Int, l.sort))
-				r := c.BoundVar("r", Int)
-				// elements of arr are zero, everything else unchanged. Expressed through
-				// the inverse functions so that no quantifier alternation is needed.
-				isEl := c.And(c.Eq(c.App("elemArr", Int, x.unmk(t, el, r)), arr), c.Eq(mk(c.App("elem", Int, arr, c.App("elemIdx", Int, x.unmk(t, el, r)))), r))
-				body := c.Eq(c.Select(nh, r), c.Ite(isEl, zs[k], c.Select(h, r)))
-				nh.AddFact(c.Quant("forall", []*Term{r}, body, [][]*Term{{c.Select(nh, r)}}))
-				e.ensureElemAxioms()
-				e.heapSet(s, key, nh)
+				out = append(out, leafPath{key: fieldKey(t, i) + l.comp, sort: l.sort, typ: ft, zero: zs[k], mk: mk, unmk: unmk, ok: ok})
 			}
 		}
 	}
-	walk(el, func(r *Term) *Term { return r })
+	id := func(r *Term) *Term { return r }
+	walk(el, id, id, func(r *Term) *Term { return c.True() })
+	return out
 }
 
-// unmk maps the address of a (possibly nested) sub-struct back to the element reference;
-// only top-level element structs are supported precisely.
-func (x *exec) unmk(t, el types.Type, r *Term) *Term {
-	if types.Identical(t, el) {
-		return r
+// isElemOf: r is the reference of element k (lo <= k < hi when given) of array arr.
+func (e *Engine) isElemOf(r, arr, lo, hi *Term) *Term {
+	c := e.C
+	e.ensureElemAxioms()
+	idx := c.App("elemIdx", Int, r)
+	cs := []*Term{c.Eq(c.App("elemArr", Int, r), arr), c.Eq(c.App("elem", Int, arr, idx), r)}
+	if lo != nil {
+		cs = append(cs, c.Le(lo, idx), c.Lt(idx, hi))
 	}
-	x.e.unsupported("make of slice of structs with nested struct fields")
-	return r
+	return c.And(cs...)
+}
+
+// zeroStructElems makes every element of the fresh array arr the zero struct.
+func (x *exec) zeroStructElems(s *State, arr *Term, el types.Type) {
+	e := x.e
+	c := e.C
+	for _, lp := range e.structLeaves(el) {
+		h := e.heapGet(s, lp.key, Array(Int, lp.sort))
+		nh := c.Fresh("Hz:"+lp.key, Array(Int, lp.sort))
+		r := c.BoundVar("r", Int)
+		in := c.And(lp.ok(r), e.isElemOf(lp.unmk(r), arr, nil, nil))
+		sel := c.Select(nh, r)
+		nh.AddFact(c.Quant("forall", []*Term{r}, c.Eq(sel, c.Ite(in, lp.zero, c.Select(h, r))), [][]*Term{{sel}}))
+		e.heapSet(s, lp.key, nh)
+	}
 }
